@@ -3,7 +3,7 @@ import BfeVerif.C09.Model
 /-!
   C09 driver.
   op      = step (" " step)*
-  step    = kind "|" gslb "|" table "|" events          kind = I (BalTable.Init) | L (BalTableReload)
+  step    = kind "|" gslb "|" table "|" events          kind = I (BalTable.Init) | L (BalTableReload) | IF / LF the same from JSON files through BalTable.Init(files) / BalTableConfLoad + BalTableReload (a file the loaders reject gives status `rejected` and must change nothing)
   gslb    = "-" | cluster (";" cluster)*                cluster = cname "=" [sub ":" weight ("," sub ":" weight)*]
   table   = "-" | cluster (";" cluster)*                cluster = cname "=" [subspec ("+" subspec)*]
                                                         subspec = sname "~" [backend ("," backend)*] ; backend = name "@" addr "@" port "@" weight
@@ -81,7 +81,7 @@ def b01 (b : Bool) : String := if b then "1" else "0"
 
 def showObj (b : Backend) : String :=
   ",".intercalate [b.name, b.addr, toString b.port, toString b.weight, b01 b.avail, toString b.failNum,
-    toString b.connNum, b01 (b.released ≥ 1)]
+    toString b.connNum, b01 (b.released ≥ 1), b01 b.restarted]
 
 def dash (s : String) : String := if s == "" then "-" else s
 
@@ -99,11 +99,11 @@ def showGrave (st : St) : String :=
 
 def parseObj (s : String) : Option Backend :=
   match s.splitOn "," with
-  | [n, a, p, w, av, f, c, cl] =>
+  | [n, a, p, w, av, f, c, cl, rs] =>
     match p.toInt?, w.toInt?, f.toInt?, c.toInt? with
     | some p, some w, some f, some c =>
       some { name := n, addr := a, port := p, weight := w, avail := av == "1", failNum := f, connNum := c,
-             released := if cl == "1" then 1 else 0 }
+             released := if cl == "1" then 1 else 0, restarted := rs == "1" }
     | _, _, _, _ => none
   | _ => none
 
@@ -124,6 +124,9 @@ def parseImplTable (s : String) : Option (List Cluster) :=
           | _ => none
         | _ => none).map fun l => ({ name := cn, subs := l } : Cluster)
     | _ => none
+
+def isInit (k : String) : Bool := k == "I" || k == "IF"
+def isFile (k : String) : Bool := k == "IF" || k == "LF"
 
 structure Step where
   kind : String
@@ -156,7 +159,7 @@ def judgeStep (stp : Step) (prev : List Cluster) (prevGrave : List Backend) (sta
     gc.findSome? fun (sn, _) =>
       let have_ := ((tbl.find? (·.name == cn)).bind fun c => c.subs.find? (·.name == sn)).map (·.backs.map (·.key))
       -- Init creates one backend per entry (duplicates included); Update merges by AddrInfo
-      let want := if stp.kind == "I" then
+      let want := if isInit stp.kind then
           (((stp.bc.lookup cn).bind (·.lookup sn)).getD []).map (·.key)
         else confKeys stp.bc cn sn
       match have_ with
@@ -167,7 +170,7 @@ def judgeStep (stp : Step) (prev : List Cluster) (prevGrave : List Backend) (sta
         else if (stp.bc.lookup cn).isNone then some "cluster-missing-in-table-keeps-backends"
         else if ((stp.bc.lookup cn).bind (·.lookup sn)).isNone then some "subcluster-missing-in-table-keeps-backends"
         else some "backends-differ-from-conf"
-  let rejectedChanged := stp.kind == "L" && stp.g.any fun (cn, gc) =>
+  let rejectedChanged := !isInit stp.kind && stp.g.any fun (cn, gc) =>
     decide (confTotal gc ≤ 0) &&
       match prev.find? (·.name == cn) with
       | some pc => ((tbl.find? (·.name == cn)).map fun c => c.subs.map fun s => (s.name, s.weight)) != some (pc.subs.map fun s => (s.name, s.weight))
@@ -184,14 +187,14 @@ def judgeStep (stp : Step) (prev : List Cluster) (prevGrave : List Backend) (sta
     let old := ((prev.find? (·.name == c.name)).bind fun pc => pc.subs.find? (·.name == s.name)).map (·.backs) |>.getD []
     s.backs.any fun b =>
       let cands := old.filter (·.key == b.key)
-      if stp.kind == "I" || cands.isEmpty then !(b.avail && b.failNum == 0 && b.connNum == 0)
+      if isInit stp.kind || cands.isEmpty then !(b.avail && b.failNum == 0 && b.connNum == 0)
       else !(cands.any fun o => o.avail == b.avail && o.failNum == b.failNum && o.connNum == b.connNum)
   if lost then some "state-lost"
   else
   -- a backend whose configured (Addr, Port) persists in its sub-cluster must not be released: judged for keys that
   -- occur exactly once in the whole previous table (so the grave entry can only be that object)
   let prevObjs := prev.flatMap fun c => c.subs.flatMap fun s => s.backs.map fun b => (c.name, s.name, b)
-  let persistReleased := stp.kind == "L" && prevObjs.any fun (cn, sn, b) =>
+  let persistReleased := !isInit stp.kind && prevObjs.any fun (cn, sn, b) =>
     (prevObjs.filter fun x => x.2.2.key == b.key).length == 1 &&
     ((stp.g.lookup cn).bind (·.lookup sn)).isSome && decide (confTotal ((stp.g.lookup cn).getD []) > 0) &&
     (confKeys stp.bc cn sn).contains b.key &&
@@ -237,6 +240,8 @@ structure Acc where
   verdict : Option String := none
   implPrev : List Cluster := []
   implGrave : List Backend := []
+  lastG : GslbConf := []
+  lastBc : TableConf := []
   tags : List String := []
   stop : Bool := false
 
@@ -252,11 +257,35 @@ def run (op impl : String) : Ans :=
       | [] => a
       | stp :: rest =>
         if a.stop then a else
-        let r := if stp.kind == "I" then balTableInit stp.g stp.bc else balTableReload a.st stp.g stp.bc
+        let r := if isInit stp.kind then balTableInit stp.g stp.bc else balTableReload a.st stp.g stp.bc
         let implS := impls.headD ""
         let f := implS.splitOn "#"
         let selStr := f.getD 3 "-" ++ "#" ++ f.getD 4 "-"
-        if stp.kind == "I" && r.gslbErr then
+        if implS == "HANG" || (implS.splitOn "HANG").length > 1 then
+          { a with out := a.out ++ ["?"], stop := true, verdict := a.verdict.orElse fun _ => some "hang" }
+        else if isFile stp.kind && !confValid stp.g stp.bc then
+          -- the loaders reject the files: nothing may change (an Init that fails ends the case)
+          if isInit stp.kind then
+            let v := a.verdict.orElse fun _ => if implS == "rejected" then none else some "rejected-conf-accepted"
+            { a with out := a.out ++ ["rejected"], stop := true, verdict := v, tags := addTag "rejected" a.tags }
+          else
+            let line := "rejected#" ++ showTable a.st ++ "#" ++ showGrave a.st ++ "#" ++ selStr
+            let (v, prev', grave') :=
+              match f with
+              | [s, t, g, _, _] =>
+                match parseImplTable t, parseObjs g with
+                | some tbl, some gr =>
+                  let same := decide (tbl = a.implPrev) && sameMultiset (gr.map showObj) (a.implGrave.map showObj)
+                  ((if s != "rejected" then some "rejected-conf-accepted"
+                    else if !same then some "rejected-reload-changed-state" else none),
+                   (stp.evts.foldl applyEvt { clusters := tbl }).clusters, gr)
+                | _, _ => (some "unparsable", a.implPrev, a.implGrave)
+              | _ => (some "unparsable", a.implPrev, a.implGrave)
+            go rest (impls.drop 1)
+              { a with st := stp.evts.foldl applyEvt a.st, out := a.out ++ [line], verdict := a.verdict.orElse fun _ => v,
+                       implPrev := prev', implGrave := grave', tags := addTag "rejected" a.tags }
+        else
+        if isInit stp.kind && r.gslbErr then
           -- BalTable.Init returned the gslbInit error before backendInit: the server does not start, the history ends
           let v := a.verdict.orElse fun _ => if implS == "initfail" then none else some "unparsable"
           { a with out := a.out ++ ["initfail"], stop := true, verdict := v, tags := addTag "init-fail" a.tags }
@@ -279,13 +308,16 @@ def run (op impl : String) : Ans :=
                  (stp.evts.foldl applyEvt { clusters := tbl }).clusters, gr)
               | _, _ => (some "unparsable", a.implPrev, a.implGrave)
             | _ => (some (if implS == "panic" then "double-release" else "unparsable"), a.implPrev, a.implGrave)
-          let tags := a.tags
+          let tags := if isFile stp.kind then addTag "file" a.tags else a.tags
+          let tags := if !isInit stp.kind && stp.g == (a.lastG) && stp.bc == a.lastBc then addTag "same-conf" tags else tags
+          let tags := if !isInit stp.kind && stp.g == a.lastG && stp.bc != a.lastBc then addTag "table-only" tags else tags
+          let tags := if !isInit stp.kind && stp.g != a.lastG && stp.bc == a.lastBc then addTag "gslb-only" tags else tags
           let tags := if r.gslbErr then addTag "gslb-err" tags else tags
           let tags := if r.tableErr then addTag "table-err" tags else tags
-          let tags := if stp.kind == "L" && r.st.grave.length > a.st.grave.length then addTag "nt" (addTag "released" tags) else tags
-          let tags := if stp.kind == "L" && (tableObjs st').any (fun b => !b.avail || b.failNum != 0 || b.connNum != 0) then addTag "stateful-survivor" tags else tags
+          let tags := if !isInit stp.kind && r.st.grave.length > a.st.grave.length then addTag "nt" (addTag "released" tags) else tags
+          let tags := if !isInit stp.kind && (tableObjs st').any (fun b => !b.avail || b.failNum != 0 || b.connNum != 0) then addTag "stateful-survivor" tags else tags
           go rest (impls.drop 1)
-            { a with st := st', out := a.out ++ [line], verdict := a.verdict.orElse fun _ => v, implPrev := prev', implGrave := grave', tags := tags,
+            { a with st := st', out := a.out ++ [line], verdict := a.verdict.orElse fun _ => v, implPrev := prev', implGrave := grave', lastG := stp.g, lastBc := stp.bc, tags := tags,
                      stop := implS == "panic" }
     let a := go steps implSteps {}
     { model := " ".intercalate a.out
